@@ -58,6 +58,19 @@ def gen_ir(r, fmt):
             # code-quoted (non-literal) defaults under container / dotted types: they take the generic, not the scalar, emitter branch
             p["typ"] = r.choice(["List[int]", "Dict[int, float]", "Optional[List[int]]", "np.ndarray", "Callable[[int], int]"])
             p["default"] = r.choice(["```make_callbacks()```", "```np.zeros(3)```", "```[1, 2]```", "```lambda x: x```"])
+    if fmt == "json_schema" or fmt.startswith("sqlalchemy"):
+        for n, p in ir["params"].items():
+            if p.get("typ", "").startswith("Literal[") and r.random() < 0.4:
+                ms = r.sample(["en-GB", "a.b", "c++", "x y", "alpha", "v1.2"], r.randint(2, 3))  # members with characters that are special in a regular expression
+                p["typ"] = "Literal[%s]" % ", ".join("'%s'" % m for m in ms)
+                if "default" in p:
+                    p["default"] = ms[0]
+    if fmt.startswith("sqlalchemy") and r.random() < 0.3:
+        # key markers in descriptions: a foreign key, a primary key, and a column that is both
+        n = r.choice(list(ir["params"]))
+        ir["params"][n]["typ"] = "int"
+        ir["params"][n].pop("default", None)
+        ir["params"][n]["doc"] = r.choice(["[FK(users.id)] the owner", "[PK] the key", "[PK] [FK(users.id)] owner and key", "[FK(users.id)] [PK] owner and key"])
     for p in ir["params"].values():  # dictionary-guided search (inactive unless a constant table differs from the snapshot)
         if "doc" in p:
             p["doc"] = core.spice(r, p["doc"])
